@@ -112,6 +112,14 @@ def run(chk, repo):
                   "established for Terminal.map_fmmu do not hold for a "
                   "second implementation")
     table_writers(chk, repo)
+    chk.doc("R20.8", "map_fmmu on tables with live mappings, by abstract "
+                     "execution: free slot claimed, held while mapped, "
+                     "restored afterwards, its own register block written")
+    from . import c18
+    import itertools
+    c18.fmmu_registers(chk, repo, "R20.8", tables=[
+        list(t) for n in (1, 2, 3, 4) for t in itertools.product(
+            (None, 0, 0x5000), repeat=n)])
     chk.doc("R20.5", "the FMMU table is per terminal")
     per_instance_rule(chk, repo, "R20.5", ["ebpfcat.ethercat.Terminal"], "a claim on one terminal "
                       "occupies the same slot on every other terminal")
@@ -244,9 +252,14 @@ def run(chk, repo):
                         c = -int_const(b["c"])
                     else:
                         b = None
-            need(b is not None, f"{SYM}: search idiom not recognised: "
-                                f"{unparse(e)}")
-            need(same(b["s"], b["t"]), f"{SYM}: slice start and minuend differ")
+            if b is None or not same(b["s"], b["t"]):
+                # another way to search: which slot it finds is decided by
+                # the tables of R20.8 alone
+                chk.ob("R20.1", SYM, "search idiom not the reversed-slice "
+                       "one; the slot found is decided by abstract "
+                       "execution (R20.8)", True, e, unparse(e))
+                e = None
+        if e is not None:
             s = b["s"]
             if isinstance(s, ast.Name):
                 sdefs = [(x.value, x.node) for x in rd.reaching(d.node, s.id)]
